@@ -316,5 +316,5 @@ func mergeUpdateMinerTotalStakesEvents() *eventsMergerImpl[Miner] {
 }
 
 func mergeMinerHealthCheckEvents() *eventsMergerImpl[dbs.DbHealthCheck] {
-	return newEventsMerger[dbs.DbHealthCheck](TagMinerHealthCheck, withUniqueEventOverwrite())
+	return newEventsMerger[dbs.DbHealthCheck](TagMinerHealthCheck, withHealthCheckMerged())
 }
